@@ -301,6 +301,9 @@ func (r *SeqRun) validateShard(path string) {
 		}
 		r.mu.Unlock()
 		if bad == 0 {
+			if os.Getenv("VERIF_KEEP") == "" {
+				os.Remove(path) // accepted: the trace is not needed any more (the scratch directory is RAM)
+			}
 			return
 		}
 		lines, err := readLines(path)
